@@ -118,26 +118,36 @@ def scan_forbidden():
 
 
 def check_property_file(prop):
-    """Re-run coqc on Properties/<prop>.v, capture Print Assumptions, count theorems.
-    Returns dict(obligations, discharged, theorems, axioms, ok, log)."""
-    path = os.path.join(COQ, 'Properties', f'{prop}.v')
-    src = open(path, encoding='utf-8').read()
-    src_nc = re.sub(r'\(\*.*?\*\)', '', src, flags=re.S)
-    names = re.findall(r'^\s*(?:Theorem|Lemma|Corollary|Example)\s+([A-Za-z0-9_\']+)', src_nc, flags=re.M)
-    rc, out = sh(f'timeout 900 coqc -Q . CC Properties/{prop}.v 2>&1', 1000, cwd=COQ)
-    axioms = set()
-    closed = out.count('Closed under the global context')
-    for m in re.finditer(r'^([A-Za-z_][A-Za-z0-9_.\']*)\s*:', out, flags=re.M):
-        axioms.add(m.group(1))
-    # Print Assumptions lists "Axioms:" followed by "name : type" lines
-    axioms = {a for a in axioms if '.' in a or a[0].isupper() or a in ('classic',)}
-    foreign = sorted(a for a in axioms if a not in WHITELIST_AXIOMS and not a.startswith('PrimFloat')
-                     and not a.startswith('Uint63') and not a.startswith('FloatOps') and not a.startswith('PrimInt63')
-                     and not a.startswith('FloatAxioms') and not a.startswith('SpecFloat'))
+    """Re-run coqc on Properties/<prop>.v and its continuation files Properties/<prop>[a-z]*.v, capture Print
+    Assumptions, count theorems.  Returns dict(obligations, discharged, theorems, axioms, ok, log)."""
+    import glob
+    files = sorted(glob.glob(os.path.join(COQ, 'Properties', f'{prop}.v')) +
+                   glob.glob(os.path.join(COQ, 'Properties', f'{prop}[a-z]*.v')))
+    names, axioms, closed, logs, all_ok, discharged = [], set(), 0, [], bool(files), 0
+    for path in files:
+        src = open(path, encoding='utf-8').read()
+        src_nc = re.sub(r'\(\*.*?\*\)', '', src, flags=re.S)
+        these = re.findall(r'^\s*(?:Theorem|Lemma|Corollary|Example)\s+([A-Za-z0-9_\']+)', src_nc, flags=re.M)
+        rel = os.path.relpath(path, COQ)
+        rc, out = sh(f'timeout 900 coqc -Q . CC {rel} 2>&1', 1000, cwd=COQ)
+        names += these
+        if rc == 0:
+            discharged += len(these)
+        else:
+            all_ok = False
+        closed += out.count('Closed under the global context')
+        # Print Assumptions lists "Axioms:" followed by "name : type" lines
+        for m in re.finditer(r'^([A-Za-z_][A-Za-z0-9_.\']*)\s*:', out, flags=re.M):
+            a = m.group(1)
+            if '.' in a or a[0].isupper() or a in ('classic',):
+                axioms.add(a)
+        logs.append(out[-1500:])
+    foreign = sorted(a for a in axioms if a not in WHITELIST_AXIOMS and not a.startswith(
+        ('PrimFloat', 'Uint63', 'FloatOps', 'PrimInt63', 'FloatAxioms', 'SpecFloat')))
     return {
-        'obligations': len(names), 'discharged': len(names) if rc == 0 else 0, 'theorems': names,
+        'obligations': len(names), 'discharged': discharged, 'theorems': names, 'files': [os.path.relpath(f, COQ) for f in files],
         'axioms': sorted(axioms), 'foreign_axioms': foreign, 'closed_count': closed,
-        'ok': rc == 0 and not foreign, 'log': out[-3000:],
+        'ok': all_ok and not foreign, 'log': '\n'.join(logs)[-3000:],
     }
 
 
@@ -202,7 +212,9 @@ class Toks:
 
 
 ERR_NAMES = {1: 'FloatingGroundNode', 2: 'AmbiguousBranchIDs', 3: 'KeyError', 4: 'Singular', 5: 'ValueError',
-             6: 'AttributeError', 7: 'Other'}
+             6: 'AttributeError', 7: 'Other', 8: 'MultipleGroundNodes', 9: 'AmbiguousComponentID', 10: 'TypeError',
+             11: 'ZeroDivisionError', 12: 'FileFormatError', 13: 'FileExistsError', 14: 'UnknownWavetype',
+             15: 'UnidentifiedComponent', 16: 'IncorrectComponentInformation', 17: 'UnknownCircuitComponent', 18: 'IndexError'}
 
 
 def run_model(lines, shards=16):
